@@ -90,6 +90,7 @@ var mutOps = []mutOp{
 	{"C07", "C07.R13", "eval/eval_api.go", `\t\tContext:    context\.Background\(\),\n`, "", "blank states start without a context"},
 	{"C09", "C09.R9", "main.go", `(?s)if options\.MaxDepth > 0 \{\s+ns\.MaxDepth = options\.MaxDepth\s+\}`, "", "script files run without the depth limit of the command line"},
 	{"C09", "C09.R7", "eval/macro_expension.go", `\tres\.depth = s\.depth[^\n]*\n`, "", "macro expansion states restart the depth count"},
+	{"C07", "C07.R14", "extensions/images.go", `if !\(v > -maxCoord && v < maxCoord\)`, "if !(v < maxCoord)", "path coordinates lose their lower bound"},
 	{"C01", "C01.R8", "eval/eval.go", `condition := object\.Value\(s\.evalInternal\(ie\.Condition\)\)`, "condition := s.evalInternal(ie.Condition)", "if condition no longer dereferenced"},
 	{"C07", "C07.R9", "object/object.go", `return NULL, false, m\.len\n`, "return NULL, false, m.len + 1\n", "SmallMap.get reports an insertion point past len (relational summary)"},
 	{"C07", "C07.R9", "object/object.go", `if nl > MaxSmallMap \{\n\t\treturn &BigMap\{kv: m\.kv\[1:\]\}`, "if nl > MaxSmallMap+1 {\n\t\treturn &BigMap{kv: m.kv[1:]}", "small-map threshold off by one"},
